@@ -45,7 +45,8 @@ RULE = (
     "optional 'corpora'/'indices' selection; N = 1-17 clients cut into contiguous worker groups; bulk size 1-5000, batch = k x bulk; "
     "ingest percentage 100 or (0,100]; conflicts none/sequential/random x probability x on-conflict x recency with Rally's RNG seeded "
     "from the case; two drawn orders in which co-located clients call params(). Per group one real BulkIndexParamSource is partitioned "
-    "for its clients and drained at 100 % under order A, then again under order B with the drawn ingest percentage. "
+    "for its clients and drained at 100 % under order A, again at 100 % under order B (same multiset of bulks), and with the drawn "
+    "ingest percentage under order A (prefix of the documented length). "
     "arith cases: 1-3 files with up to 10^12 documents, up to 1024 clients, drawn contiguous split, bulk size up to 10^6. "
     "arith-grid (enumerated): all contiguous splits of N <= 9 clients x 0..60 documents x with/without meta-data. "
     "Non-trivial (files) = (>= 2 groups and >= 2 targeted files) or a group starts beyond line 50 000 of a file (offset entry used) or "
@@ -58,7 +59,8 @@ ASSUMPTIONS = [
     "the clients of one task that run on one worker in one allocation column form a contiguous range of client indices "
     "(Allocator + calculate_worker_assignments hand out contiguous blocks; over-commit wraps into a new column with its own source)",
     "the declared document count of a file equals its real line count (C14 checks that) and no line contains a lone CR",
-    "ingest percentage: when p% x total bulks is within 1e-9 of an integer both neighbouring counts are accepted",
+    "ingest percentage: ceil(p% x total bulks) is accepted both in exact arithmetic and as evaluated in double precision "
+    "(they differ only when the product is within 1e-9 of an integer, e.g. 100 bulks at 7 %)",
     "ids generated for conflicts are compared per document file; two files that target the same index reuse ids by design of the code",
     "10^12-document corpora are covered by arithmetic on bounds/number_of_bulks only",
 ]
@@ -578,9 +580,14 @@ def _analyse_group(obs, case, by_tag, gi, bulks, fresh_ids, tag):
 
 
 def _accepted_counts(pct, total):
-    x = Fraction(str(pct)) * total / 100
-    eps = Fraction(1, 10**9) * max(1, x)
-    return {math.ceil(x - eps), math.ceil(x + eps)}
+    """ceil(p% x total) for p as written in the track; where evaluating that product in double precision lands on the other side of an
+    integer (100 bulks at 7 % = 7.000000000000001) the count obtained that way is accepted too"""
+    exact = Fraction(str(pct)) * total / 100
+    accepted = {math.ceil(exact)}
+    for fx in ((total * float(pct)) / 100, total * (float(pct) / 100)):
+        if abs(Fraction(fx) - exact) <= Fraction(1, 10**9) * max(1, exact):
+            accepted.add(math.ceil(fx))
+    return accepted
 
 
 def _run_files(case, obs):
@@ -630,27 +637,32 @@ def _run_files(case, obs):
                 "number-of-bulks/mismatch",
                 f"group {gi} (clients {s}..{e} of {case['clients']}): number_of_bulks = {announced}, produced at 100 %: {len(bulks_a)}",
             )
-            # ---- run B: call order B, drawn ingest percentage: a prefix of run A of the documented length ----------------
-            if len(group) == 1 and not partial:
-                continue
-            _, bulks_b, runaway = _drain_group(t, case, ingest, group, case["order_b"], seed, limit)
-            if not obs.check(not runaway, "cover/runaway", f"group {gi} (run B) issued more than {limit} bulks"):
-                return
-            same = [x.key() for x in bulks_b] == [x.key() for x in bulks_a[: len(bulks_b)]]
-            if partial:
-                accepted = _accepted_counts(ingest, len(bulks_a))
+            # ---- run B: everything again under call order B: the same bulks (as a multiset; the statement fixes no issue order) ----
+            if len(group) >= 2:
+                _, bulks_b, runaway = _drain_group(t, case, 100, group, case["order_b"], seed, limit)
+                if not obs.check(not runaway, "cover/runaway", f"group {gi} (run B) issued more than {limit} bulks"):
+                    return
                 obs.check(
-                    len(bulks_b) in accepted,
-                    "ingest/wrong-count",
-                    f"group {gi}: {len(bulks_b)} bulks at ingest-percentage {ingest}, {len(bulks_a)} at 100 %: expected {sorted(accepted)}",
-                )
-                obs.check(same, "ingest/not-a-prefix", f"group {gi}: the {len(bulks_b)} bulks at {ingest} % are not the first bulks of the full run")
-            else:
-                obs.check(
-                    same and len(bulks_b) == len(bulks_a),
+                    sorted(x.key() for x in bulks_b) == sorted(x.key() for x in bulks_a),
                     "call-order/differs",
                     f"group {gi}: call order {case['order_b']} gives {len(bulks_b)} bulks, order {case['order_a']} gives {len(bulks_a)}"
-                    + ("" if same else "; contents differ"),
+                    + ("" if len(bulks_a) != len(bulks_b) else " with different contents"),
+                )
+            # ---- run C: drawn ingest percentage under call order A: the first ceil(p% x bulks of run A) bulks of run A ----------
+            if partial:
+                _, bulks_c, runaway = _drain_group(t, case, ingest, group, case["order_a"], seed, limit)
+                if not obs.check(not runaway, "cover/runaway", f"group {gi} (run C) issued more than {limit} bulks"):
+                    return
+                accepted = _accepted_counts(ingest, len(bulks_a))
+                obs.check(
+                    len(bulks_c) in accepted,
+                    "ingest/wrong-count",
+                    f"group {gi}: {len(bulks_c)} bulks at ingest-percentage {ingest}, {len(bulks_a)} at 100 %: expected {sorted(accepted)}",
+                )
+                obs.check(
+                    [x.key() for x in bulks_c] == [x.key() for x in bulks_a[: len(bulks_c)]],
+                    "ingest/not-a-prefix",
+                    f"group {gi}: the {len(bulks_c)} bulks at {ingest} % are not the first bulks of the full run",
                 )
 
         # ---- exact cover per targeted file --------------------------------------------------------------------------
